@@ -331,6 +331,9 @@ func httpMergeTrailers(header http.Header, trailer http.Header) {
 		if !strings.HasPrefix(key, http.TrailerPrefix) {
 			key = http.TrailerPrefix + key
 		}
+		// Replace, don't add: the handler may already have set the same
+		// trailer (its own status, say) directly on the header map.
+		header.Del(key)
 		for _, val := range vals {
 			header.Add(key, val)
 		}
